@@ -88,7 +88,7 @@ func VerifC10_IncomingRestart() {
 	isPull := st.Initiator == st.Recipient
 	req := verifScalarRequest("req")
 	zz.Assume(req.MessageType == uint64(types.RestartMessage))
-	req.TransferId = uint64(chid.ID)
+	zz.SetInt(&req.TransferId, uint64(chid.ID))
 	base := st.BaseCid
 	req.BaseCidPtr = &base
 	req.VoucherPtr = st.Vouchers[0].Voucher.Node
